@@ -364,6 +364,7 @@ func checkC08(c *Ctx) {
 	c.Floor("typeterm spec kinds", nSpecs, 15, "hcldec spec kinds")
 	c.Floor("typeterm fresh returns", nRets, 15, "fresh values returned on absent/empty/unknown/error paths")
 	c08UnknownBody(c)
+	c08Labels(c)
 	c.NotCovered("values assembled from decoded children (ListVal(elems), ObjectVal(vals)): conformance there is inductive over values")
 	c.NotCovered("the 'exactly the described value' clause for error-free decoding; panics of cty constructors on inconsistent element types")
 }
@@ -729,4 +730,149 @@ func c08Elements(c *Ctx) {
 		}
 	}
 	c.Floor("elements insertions", n, 3, "BlockAttrsSpec map elements, BlockListSpec/BlockSetSpec/BlockMapSpec elements")
+}
+
+// R3 labels: a block spec that declares its own labels (a LabelNames field) consumes exactly
+// those: its implied type nests one level per label name, and the nested spec is handed the
+// block's labels minus len(LabelNames); a spec without LabelNames hands all of them on.
+func c08Labels(c *Ctx) {
+	c.Rule("R3 labels: for every hcldec block spec, (labels.consumed) each call decode(child.Body, L, ctx, s.Nested, …) in its decode method passes L = all labels of the block when the spec declares no labels of its own, and L = labels[len(s.LabelNames):] when it has a LabelNames field (neither more nor fewer: the nested BlockLabelSpec indices count from the first label that the enclosing spec did not use); (labels.depth) the impliedType of a spec with LabelNames is dynamic or is built by a loop over s.LabelNames (one collection level per label), as its decode builds one level per label")
+	pkg := c.P.Pkg("hcldec")
+	decFn := c.P.LookupFunc("hcldec", "decode")
+	if pkg == nil || decFn == nil {
+		c.CheckerFail("labels.consumed", "anchor hcldec.decode does not resolve")
+		return
+	}
+	var specI *types.Interface
+	if tn, ok := pkg.Types.Scope().Lookup("Spec").(*types.TypeName); ok {
+		specI, _ = tn.Type().Underlying().(*types.Interface)
+	}
+	if specI == nil {
+		c.CheckerFail("labels.consumed", "hcldec.Spec is not an interface")
+		return
+	}
+	names := pkg.Types.Scope().Names()
+	sites, withLN := 0, 0
+	for _, name := range names {
+		tn, ok := pkg.Types.Scope().Lookup(name).(*types.TypeName)
+		if !ok || types.IsInterface(tn.Type()) {
+			continue
+		}
+		if !types.Implements(types.NewPointer(tn.Type()), specI) && !types.Implements(tn.Type(), specI) {
+			continue
+		}
+		st, ok := tn.Type().Underlying().(*types.Struct)
+		if !ok {
+			continue
+		}
+		lnField := -1
+		for i := 0; i < st.NumFields(); i++ {
+			if sl, ok := st.Field(i).Type().Underlying().(*types.Slice); ok && st.Field(i).Name() == "LabelNames" {
+				if bt, ok := sl.Elem().Underlying().(*types.Basic); ok && bt.Kind() == types.String {
+					lnField = i
+				}
+			}
+		}
+		dec := c.P.LookupFunc("hcldec", name+".decode")
+		imp := c.P.LookupFunc("hcldec", name+".impliedType")
+		if dec == nil || imp == nil || len(dec.Params) == 0 {
+			continue
+		}
+		readsLN := func(fn *ssa.Function, v ssa.Value) bool {
+			// v = len(recv.LabelNames)
+			call, ok := v.(*ssa.Call)
+			if !ok {
+				return false
+			}
+			if b, ok := call.Call.Value.(*ssa.Builtin); !ok || b.Name() != "len" {
+				return false
+			}
+			u, ok := call.Call.Args[0].(*ssa.UnOp)
+			if !ok {
+				return false
+			}
+			fa, ok := u.X.(*ssa.FieldAddr)
+			return ok && fa.Field == lnField && lnField >= 0 && isSpillOf(fa.X, fn.Params[0])
+		}
+		if lnField >= 0 {
+			withLN++
+			c.Fn(FuncName(imp))
+			term := "?"
+			loops := false
+			for _, b := range imp.Blocks {
+				for _, ins := range b.Instrs {
+					if fa, ok := ins.(*ssa.FieldAddr); ok && fa.Field == lnField && isSpillOf(fa.X, imp.Params[0]) {
+						// the field is read: by the range loop that wraps the type once per name
+						loops = true
+					}
+				}
+				if r, ok := b.Instrs[len(b.Instrs)-1].(*ssa.Return); ok && len(r.Results) == 1 {
+					term = typeTerm(r.Results[0], imp.Params[0], 0)
+				}
+			}
+			okDepth := term == "Dyn" || (strings.Contains(term, "*(") && loops)
+			c.Check(okDepth, "labels.depth", "hcldec."+name+".impliedType", imp.Pos(), "implied type "+term,
+				fmt.Sprintf("the spec declares LabelNames and its decode nests one collection level per label, but impliedType is %s, which does not depend on the number of label names: with two labels the decoded value and the unknown placeholders made from the implied type disagree", term))
+		}
+		fns := append([]*ssa.Function{dec}, dec.AnonFuncs...)
+		k := 0
+		for _, fn := range fns {
+			for _, b := range fn.Blocks {
+				for _, ins := range b.Instrs {
+					call, ok := ins.(*ssa.Call)
+					if !ok || call.Call.StaticCallee() != decFn || len(call.Call.Args) < 4 {
+						continue
+					}
+					sites++
+					k++
+					c.Sites++
+					c.Fn(FuncName(dec))
+					arg := lookThrough(call.Call.Args[1])
+					isAll := func(v ssa.Value) bool {
+						v = lookThrough(v)
+						lc, ok := v.(*ssa.Call)
+						if !ok {
+							return false
+						}
+						cal := lc.Call.StaticCallee()
+						if cal == nil || cal.Pkg == nil || cal.Pkg.Pkg != pkg.Types || len(cal.Params) != 1 {
+							return false
+						}
+						return isNamed(cal.Params[0].Type(), modPath, "Block")
+					}
+					form := "other"
+					switch x := arg.(type) {
+					case *ssa.Call:
+						if isAll(x) {
+							form = "all"
+						}
+					case *ssa.Slice:
+						if isAll(x.X) && x.High == nil && x.Max == nil {
+							switch {
+							case x.Low == nil:
+								form = "all"
+							case fn == dec && readsLN(dec, x.Low):
+								form = "rest"
+							}
+						}
+					}
+					want := "all"
+					if lnField >= 0 {
+						want = "rest"
+					}
+					key := fmt.Sprintf("hcldec.%s.decode:nested.labels", name)
+					if k > 1 {
+						key += fmt.Sprintf("#%d", k)
+					}
+					c.Check(form == want, "labels.consumed", key, call.Pos(), "labels handed on: "+form,
+						fmt.Sprintf("the nested spec is handed %s where a spec %s must hand on %s: a nested BlockLabelSpec{Index: i} then reads the wrong label or indexes past the end",
+							map[string]string{"all": "all labels of the block", "rest": "labels[len(s.LabelNames):]", "other": "a different part of the labels"}[form],
+							map[bool]string{true: "with LabelNames", false: "without labels of its own"}[lnField >= 0],
+							map[string]string{"all": "all labels of the block", "rest": "labels[len(s.LabelNames):]"}[want]))
+				}
+			}
+		}
+	}
+	c.Floor("labels.consumed nested decode calls", sites, 6, "BlockSpec, BlockListSpec, BlockTupleSpec, BlockSetSpec, BlockMapSpec, BlockObjectSpec")
+	c.Floor("labels.depth specs with LabelNames", withLN, 2, "BlockMapSpec, BlockObjectSpec")
 }
